@@ -386,6 +386,12 @@ func c03(args []string) {
 							if !failed {
 								all = false
 							}
+						case "recovered-audit-file-missing":
+							f := strings.TrimPrefix(p.Msg, "after recovery ")
+							f = f[:strings.Index(f, ".audit.json")]
+							if !failed && !explained[mon.RootRel(root, f)] {
+								all = false
+							}
 						case "recovered-file-missing":
 							f := strings.TrimSuffix(strings.TrimPrefix(p.Msg, "after recovery "), " is missing")
 							if !failed && !explained[mon.RootRel(root, f)] {
